@@ -263,9 +263,15 @@ def replay_stepwise(beh: dict, c: dict, sub: Subst, *, integ="generic", delimite
         kind = op["op"]
         if kind == "ns":
             label, p, n = op["ns"]
-            stream.namespace_declaration(sub.o(label), sub.iri(p, n))
-            nss.append(("ns", sub.o(label), sub.iri(p, n)))
-            accepted.append(("ns", sub.o(label), sub.iri(p, n)))
+            try:
+                stream.namespace_declaration(sub.o(label), sub.iri(p, n))
+                nss.append(("ns", sub.o(label), sub.iri(p, n)))
+                accepted.append(("ns", sub.o(label), sub.iri(p, n)))
+            except Exception as ex:  # noqa: BLE001
+                rejected.append((i, type(ex).__name__ + ": " + str(ex)[:80]))
+                if stop_on_reject:
+                    per_op.append(checkpoint())
+                    break
             per_op.append(checkpoint())
             i += 1
         elif kind in ("stmt", "reject") and ptype != 3:
